@@ -68,6 +68,7 @@ def latch(ck, F, E):
         if b is None:
             ck.missing("C19:LATCH:%s" % fn, fn)
             continue
+        b = result_handler(F, b)[0]
         ok = False
         # helpers of the adapter that latch an error on every path (`fn set_latest_error(..) { ..; self.latest_error = Some(..) }`)
         setters = set()
@@ -170,11 +171,32 @@ def latch(ck, F, E):
                    "get_state no longer reports Errored exactly when an error is latched", gs.span)
 
 
+def result_handler(F, b):
+    """The body that looks at the core's Result for entry point `b`: `b` itself, or -- when `b` hands the result of the core
+    call to a helper of the adapter on every path (`self.handle_evaluation_result(result, line)`) -- that helper, with the call."""
+    if b is None:
+        return None, None
+    if list(switch_arms_on(b, lambda s_, n: n and set(n.values()) == {"Ok", "Err"})):
+        return b, None
+    pd = b.postdominators().get(0, set()) | {0}
+    for c in b.calls():
+        hb = F.bodies.get(c.callee)
+        if hb is None or hb.crate != "abasic_web" or c.bb not in pd:
+            continue
+        for a in c.args:
+            if any(x[1].endswith("Interpreter::start_evaluating") or x[1].endswith("Interpreter::continue_evaluating")
+                   for x in expr_calls(b.expr(a, depth=20))):
+                if list(switch_arms_on(hb, lambda s_, n: n and set(n.values()) == {"Ok", "Err"})):
+                    return hb, c
+    return b, None
+
+
 def transient(ck, F, E):
     for fn in ("JsInterpreter::start_evaluating", "JsInterpreter::continue_evaluating"):
         b = F.one(fn, "abasic_web")
         if b is None:
             continue
+        b = result_handler(F, b)[0]
         ok = False
         for (bb, subject, targets, otherwise, names_) in switch_arms_on(b, lambda s, n: n and set(n.values()) == {"Ok", "Err"}):
             ot = arm_target(targets, otherwise, names_, "Ok")
@@ -261,6 +283,14 @@ def mappings(ck, F):
         ck.missing("C19:MAP:output", "convert_interpreter_output_for_js")
     else:
         tab = variant_table(cv)
+        if not tab:
+            # the type table may sit in a helper of the adapter the converter calls (`js_output_type(&value)`) or a From impl
+            for c in cv.calls():
+                hb = F.bodies.get(c.callee)
+                if hb is not None and hb.crate == "abasic_web":
+                    t2 = variant_table(hb)
+                    if len(t2) >= 3:
+                        tab = t2
         want = F.adt("interpreter_output::InterpreterOutput")
         names = [v["name"] for v in want["variants"]] if want else []
         ck.floor("C19.output record variants", len(names), 6)
@@ -325,6 +355,18 @@ def line_forwarding(ck, F):
     from lib import calls_through
     gl = calls_through(F, b, "get_line_with_pointer_caret")
     ok2 = bool(gl)
+    if not gl:
+        # the caret lines are built in the shared result handler: its `line` parameter is what start_evaluating passes
+        hb, hc = result_handler(F, b)
+        if hc is not None:
+            ok2 = False
+            for c in hb.calls():
+                if c.callee.endswith("get_line_with_pointer_caret") and len(c.args) > 2:
+                    pe = strip_expr(hb.expr(c.args[2]))
+                    if pe[0] == "param" and pe[1] < len(hc.args):
+                        e = b.expr(hc.args[pe[1]])
+                        foreign = [x[1].split("::")[-1] for x in expr_calls(e) if x[1].split("::")[-1] not in ("as_ref", "deref", "as_str", "borrow", "clone")]
+                        ok2 = not foreign and expr_params(e) == {1}
     for c in gl:
         if len(c.args) < 3 or c.args[2] is None:
             ok2 = False
@@ -343,6 +385,7 @@ def error_arms(ck, F):
         b = F.one(fn, "abasic_web")
         if b is None:
             continue
+        b = result_handler(F, b)[0]
         for (bb, subject, targets, otherwise, names_) in switch_arms_on(b, lambda s, n: n and set(n.values()) == {"Ok", "Err"}):
             et = arm_target(targets, otherwise, names_, "Err")
             reg = exclusive_region(b, et)
